@@ -55,6 +55,18 @@ import FFVerif.Pins.pinConcatenateHamiltonian
 #print axioms FFVerif.C20.deriv_shape_rejects_iff
 #print axioms FFVerif.C20.cumulant_rejects_iff
 #print axioms FFVerif.C20.convergence_rejects_iff
+#print axioms FFVerif.C20.remap_shape_rejects_iff
+#print axioms FFVerif.C20.remap_shape_ok_iff
+#print axioms FFVerif.C20.remap_valid_never_rejected
+#print axioms FFVerif.C20.remap_rejects_iff_invalid
+#print axioms FFVerif.C20.remap_duplicate_mapped_ids_rejected
+#print axioms FFVerif.C20.remap_missing_key_rejected
+#print axioms FFVerif.C20.remap_error_class
+#print axioms FFVerif.C20.extend_class_of_corruption
+#print axioms FFVerif.C20.extend_duplicate_mapped_ids_rejected
+#print axioms FFVerif.C20.extend_missing_key_rejected
+#print axioms FFVerif.C20.extend_own_duplicates_rejected
+#print axioms FFVerif.C20.extend_inner_remap_consistent
 #print axioms FFVerif.Pins.pinParseArgs
 #print axioms FFVerif.Pins.pinParseHamiltonian
 #print axioms FFVerif.Pins.pinParseOperators
